@@ -7,6 +7,7 @@ import (
 	"os"
 	"os/exec"
 	"strings"
+	"syscall"
 	"testing"
 	"time"
 
@@ -249,6 +250,45 @@ var specC17Model = Register(&Spec[ClDoc]{
 				if err := clEntryMatches(*firstFromFile, d.Entries[0], 0); err != nil {
 					return errf("ParseFileOne: %v", err)
 				}
+			}
+		}
+		// ... also when the path names a pipe rather than a regular file (size unknown in advance)
+		if len(text)%7 == 0 {
+			if dir, derr := os.MkdirTemp("", "c17fifo"); derr == nil {
+				fifo := dir + "/changelog.fifo"
+				if syscall.Mkfifo(fifo, 0o600) == nil {
+					go func() {
+						if w, err := os.OpenFile(fifo, os.O_WRONLY, 0); err == nil {
+							w.WriteString(text)
+							w.Close()
+						}
+					}()
+					type res struct {
+						es  changelog.ChangelogEntries
+						err error
+					}
+					ch := make(chan res, 1)
+					go func() { es, err := changelog.ParseFile(fifo); ch <- res{es, err} }()
+					select {
+					case rr := <-ch:
+						if rr.err != nil {
+							os.RemoveAll(dir)
+							return errf("ParseFile on a named pipe rejected a well-formed changelog: %v", rr.err)
+						}
+						if err := entriesMatch(rr.es, d.Entries); err != nil {
+							os.RemoveAll(dir)
+							return errf("ParseFile on a named pipe: %v (changelog %q)", err, text)
+						}
+					case <-time.After(30 * time.Second):
+						// unblock a writer that nobody read from, then report
+						if rd, err := os.OpenFile(fifo, os.O_RDONLY|syscall.O_NONBLOCK, 0); err == nil {
+							rd.Close()
+						}
+						os.RemoveAll(dir)
+						return errf("ParseFile on a named pipe did not return within 30 s")
+					}
+				}
+				os.RemoveAll(dir)
 			}
 		}
 		one, err := changelog.ParseOne(bufio.NewReader(strings.NewReader(text)))
